@@ -51,12 +51,17 @@ OnCfg ==
 OnRx ==
   /\ Is("rx") /\ exp = <<>>
   /\ \/ /\ st = "run"
-        /\ LET r == ProcessAll(cfg, db, buf \o Ev.bytes, wfail, <<>>) IN
-             /\ exp' = r.ev /\ db' = r.db /\ buf' = r.buf
+        \* the first frame whose outcome the properties leave open (ServerRef!AnyOpenFrame) settles, for the rest of the
+        \* recorded run, which of the two admissible servers is being observed; the wrong guess dies at the next output
+        /\ LET open == AnyOpenFrame(cfg, buf \o Ev.bytes) /\ "strictBC" \notin DOMAIN cfg IN
+           \E sb \in (IF open THEN BOOLEAN ELSE {StrictBC(cfg)}) :
+             LET c2 == IF open THEN ("strictBC" :> sb) @@ cfg ELSE cfg
+                 r == ProcessAll(c2, db, buf \o Ev.bytes, wfail, <<>>) IN
+             /\ exp' = r.ev /\ db' = r.db /\ buf' = r.buf /\ cfg' = c2
              /\ st' = IF r.dead THEN "ending" ELSE "run"
      \/ /\ st = "ended"          \* bytes sent to a session that is gone are lost
-        /\ UNCHANGED <<exp, db, buf, st>>
-  /\ UNCHANGED <<cfg, wfail, hnd>> /\ Next1
+        /\ UNCHANGED <<exp, db, buf, st, cfg>>
+  /\ UNCHANGED <<wfail, hnd>> /\ Next1
 
 (* the next prescribed effect, observed *)
 OnTx ==
